@@ -592,10 +592,16 @@ def check(case):
 
         # (1) every in-service controller reports convergence (on a copy: is_converged may write to the net)
         disturbed = set()
+        shared = None
         for i in infos:
             if not i["in_service"]:
                 continue
-            probe = copy.deepcopy(net)
+            if i["kind"] == "char" or shared is None:     # CharacteristicControl.is_converged writes to the net: own copy
+                probe = copy.deepcopy(net)
+                if i["kind"] != "char":
+                    shared = probe
+            else:
+                probe = shared
             with silence():
                 ok = bool(probe.controller.object.at[i["index"]].is_converged(probe))
             if not ok:
